@@ -9,7 +9,7 @@ A graph spec is plain JSON (see DESIGN.md E1):
 
 nodes:  {'k':'c','v':num} | {'k':'p','i':n} | {'k':'u','cls','rate','args'}
         {'k':'ch','a':ref,'i':n} | {'k':'un','op','a'} | {'k':'bin','op','a','b'}
-        {'k':'madd','a','m','d'} | {'k':'muladd','a','m','d'}
+        {'k':'madd','a','m','d'[,'with':[refs],'i':n]} | {'k':'muladd','a','m','d'}
         {'k':'sum3','xs'} | {'k':'sum4','xs'} | {'k':'sum','xs'}
 unit args: int ref | ['lit', v] | 'tag'
 sinks:  {'cls','rate','args':[...same...],'xs':[ref | ['lit', 0]]}
@@ -163,6 +163,10 @@ SINKS = {
     'SendTrig': dict(rates=['ar', 'kr'], args=['eq', 'tag', 'sig'],
                      nochannels=True),
     'Free': dict(rates=['kr'], args=['sig', 'tag'], nochannels=True, nout=1),
+    'Pause': dict(rates=['kr'], args=['sig', 'tag'], nochannels=True, nout=1),
+    # a filter by class, used for its done action: never dead code
+    'DetectSilence': dict(rates=['ar', 'kr'], args=['eq', 'tag', 'sig', 'sig'],
+                          nochannels=True, nout=1),
     # no bus argument: identified by its class (at most one per graph)
     'LocalOut': dict(rates=['ar', 'kr'], args=[], unique=True),
 }
@@ -564,6 +568,11 @@ class Builder:
                     v = _PYINFIX[op](a, b)
                 else:
                     v = getattr(a, op)(b)
+            elif k == 'madd' and 'with' in n:
+                chans = [vals[x] for x in n['with']]
+                chans.insert(n['i'], vals[n['a']])
+                v = ChannelList(chans).madd(vals[n['m']],
+                                            vals[n['d']])[n['i']]
             elif k == 'madd':
                 v = vals[n['a']].madd(vals[n['m']], vals[n['d']])
             elif k == 'muladd':
